@@ -47,7 +47,7 @@ class Refuse(Exception):
     pass
 
 
-COQTY = {'Z': 'Z', 'Q': 'Q', 'B': 'bool', 'S': 'string', 'OQ': 'option Q', 'OZ': 'option Z'}
+COQTY = {'Z': 'Z', 'Q': 'Q', 'B': 'bool', 'S': 'string', 'OQ': 'option Q', 'OZ': 'option Z', 'LS': 'list string'}
 
 
 COQ_RESERVED = {'end', 'match', 'with', 'in', 'let', 'fun', 'if', 'then', 'else', 'as', 'at', 'return', 'forall', 'exists',
@@ -208,6 +208,10 @@ class FnTranslator:
                     return self.lift([self.expr(n.left, env)], power)
                 raise Refuse('%s: only 2 ** e and e ** k (k = 2..8) are supported' % self.rel)
             a, b = self.expr(n.left, env), self.expr(n.right, env)
+            if isinstance(n.op, ast.Add) and a[1] == b[1] == 'S':
+                return ('(%s ++ %s)%%string' % (a[0], b[0]), 'S')
+            if isinstance(n.op, ast.Add) and a[1] == b[1] == 'LS':
+                return ('(%s ++ %s)%%list' % (a[0], b[0]), 'LS')
             if isinstance(n.op, (ast.BitAnd, ast.BitOr)):
                 if a[1] == 'B' and b[1] == 'B':
                     return ('(%s %s %s)' % ('andb' if isinstance(n.op, ast.BitAnd) else 'orb', a[0], b[0]), 'B')
@@ -299,6 +303,26 @@ class FnTranslator:
             raise Refuse('comparison %s' % type(op).__name__)
         if isinstance(n, ast.BoolOp):
             return (self.cond(n, env), 'B')
+        if isinstance(n, ast.JoinedStr):
+            # f-string: literal pieces and {e} of a string (itself) or an int (its decimal text, Model/Decimal.v print_Z);
+            # a float is printed by Python's repr, which is outside the translation: declare the formatted expression as
+            # a parameter of type S (= the text Python prints for it)
+            parts = []
+            for piece in n.values:
+                if isinstance(piece, ast.Constant) and isinstance(piece.value, str):
+                    parts.append(slit(piece.value))
+                elif isinstance(piece, ast.FormattedValue) and piece.conversion == -1 and piece.format_spec is None:
+                    parts.append(self.to_text(self.expr(piece.value, env), ast.unparse(piece.value)))
+                else:
+                    raise Refuse('%s: f-string with a conversion or a format specification' % self.rel)
+            if not parts:
+                return (slit(''), 'S')
+            return ('(' + ' ++ '.join(parts) + ')%string' if len(parts) > 1 else parts[0], 'S')
+        if isinstance(n, ast.List):
+            items = [self.expr(e, env) for e in n.elts]
+            if all(i[1] == 'S' for i in items):
+                return ('[%s]' % '; '.join(i[0] for i in items) if items else '(@nil string)', 'LS')
+            raise Refuse('%s: list display of non-strings' % self.rel)
         if isinstance(n, ast.IfExp):
             c = self.cond(n.test, env)
             a, b = self.expr(n.body, env), self.expr(n.orelse, env)
@@ -307,6 +331,16 @@ class FnTranslator:
         if isinstance(n, ast.Call):
             return self.call(n, env)
         raise Refuse('%s: unsupported expression %s' % (self.rel, type(n).__name__))
+
+    def to_text(self, tv, what):
+        """str(v) / f'{v}' of a translated value"""
+        if tv[1] == 'S':
+            return tv[0]
+        if tv[1] == 'Z':
+            self.uses_decimal = True
+            return '(print_Z %s)' % tv[0]
+        raise Refuse('%s: the text of %s (type %s) is outside the translation (declare it as a parameter of type S)'
+                     % (self.rel, what, tv[1]))
 
     def unify(self, a, b):
         if a[1] == b[1]:
@@ -343,6 +377,28 @@ class FnTranslator:
                     raise Refuse('%s: keyword argument after an omitted parameter in a call of %s' % (self.rel, f.id))
                 return self.call(ast.Call(func=f, args=full, keywords=[]), env)
             raise Refuse('keyword arguments in a call')
+        if isinstance(f, ast.Attribute) and f.attr == 'join' and len(n.args) == 1:
+            sep, lst = self.expr(f.value, env), self.expr(n.args[0], env)
+            if sep[1] == 'S' and lst[1] == 'LS':
+                return ('(String.concat %s %s)' % (sep[0], lst[0]), 'S')
+            raise Refuse('%s: .join on types %s / %s' % (self.rel, sep[1], lst[1]))
+        if isinstance(f, ast.Attribute) and f.attr == 'isdigit' and not n.args and isinstance(f.value, ast.Call) \
+                and isinstance(f.value.func, ast.Name) and f.value.func.id == 'str' and len(f.value.args) == 1:
+            # str(v).isdigit(): for an int exactly v >= 0 ('-' is not a digit); "nan" is not made of digits
+            v = self.expr(f.value.args[0], env)
+            if v[1] == 'Z':
+                return ('(Z.leb 0 %s)' % v[0], 'B')
+            if v[1] == 'OZ':
+                return ('(match %s with Some z_ => Z.leb 0 z_ | None => false end)' % v[0], 'B')
+            raise Refuse('%s: str(v).isdigit() on type %s' % (self.rel, v[1]))
+        if isinstance(f, ast.Name) and f.id == 'str' and len(n.args) == 1:
+            return (self.to_text(self.expr(n.args[0], env), ast.unparse(n.args[0])), 'S')
+        if isinstance(f, ast.Attribute) and f.attr == 'replace' and len(n.args) == 2:
+            # pandas Series.replace(a, b) read per element (numbers only; str.replace is a different function)
+            v, a, b = self.expr(f.value, env), self.expr(n.args[0], env), self.expr(n.args[1], env)
+            if v[1] == 'Z' and a[1] == 'Z' and b[1] == 'Z':
+                return ('(if Z.eqb %s %s then %s else %s)' % (v[0], a[0], b[0], v[0]), 'Z')
+            raise Refuse('%s: .replace on types %s' % (self.rel, v[1]))
         if isinstance(f, ast.Attribute) and f.attr == 'lower' and not n.args:
             a = self.expr(f.value, env)
             if a[1] != 'S':
@@ -539,6 +595,15 @@ class FnTranslator:
                 continue
             if isinstance(s, ast.Expr) and isinstance(s.value, ast.Call) and ast.unparse(s.value.func).startswith('logging.'):
                 continue                              # a log line: no effect on any value
+            if isinstance(s, ast.Expr) and isinstance(s.value, ast.Call) and isinstance(s.value.func, ast.Attribute) \
+                    and s.value.func.attr in ('extend', 'append') and isinstance(s.value.func.value, ast.Name) \
+                    and len(s.value.args) == 1 and not s.value.keywords:
+                # x.extend(l) -> x = x + l ;  x.append(e) -> x = x + [e]   (lists are values in the translation)
+                x = s.value.func.value.id
+                arg = s.value.args[0] if s.value.func.attr == 'extend' else ast.List(elts=[s.value.args[0]], ctx=ast.Load())
+                out.append(ast.Assign(targets=[ast.Name(id=x, ctx=ast.Store())],
+                                      value=ast.BinOp(left=ast.Name(id=x, ctx=ast.Load()), op=ast.Add(), right=arg)))
+                continue
             if isinstance(s, ast.Assert):
                 # `assert c` -- the failing path is outside the translated function (recorded like a raise guard)
                 g = 'not (%s)' % ast.unparse(s.test)
@@ -580,7 +645,8 @@ class FnTranslator:
                     continue
                 if isinstance(sl, ast.Tuple) and len(sl.elts) == 2 and isinstance(sl.elts[1], ast.Constant) \
                         and isinstance(sl.elts[1].value, str):
-                    col = ast.Subscript(value=tgt.value, slice=sl.elts[1], ctx=ast.Load())
+                    base = tgt.value.value if isinstance(tgt.value, ast.Attribute) and tgt.value.attr == 'loc' else tgt.value
+                    col = ast.Subscript(value=base, slice=sl.elts[1], ctx=ast.Load())      # tbl.loc[m, 'col'] is tbl['col'] under m
                     mask = sl.elts[0]
                 else:
                     col, mask = self.as_load(tgt.value), sl
@@ -938,6 +1004,10 @@ class FnTranslator:
                 coq += '_'
             plist.append((norm(key), ty, coq))
         env = {k: (c, t) for k, t, c in plist}
+        # `init`: variables Python leaves unbound on a path the spec declares unreachable (e.g. `if a: x = .. elif b: x = ..`
+        # after the complementary case has left the iteration): (name, type, Coq term) bound before the body
+        for k, t, term in sp.get('init', []):
+            env[k] = (term, t)
         self.guards = []
         stmts = self.desugar(fnode.body)
         frag = sp.get('fragment')
@@ -1051,7 +1121,7 @@ def translate_all():
                     nfn += 1
                 lines = ['(* GENERATED from %s/%s by tools/py2v_fn.py -- do not edit, never committed by hand. *)' % (REPO, rel),
                          'From Coq Require Import ZArith QArith Qabs String List Bool.',
-                         'From CNV Require Import Base.Str Base.QNum.',
+                         'From CNV Require Import Base.Str Base.QNum%s.' % (' Model.Decimal' if getattr(tr, 'uses_decimal', False) else ''),
                          'Import ListNotations.', 'Open Scope Z_scope.', '',
                          'Section Fn.']
                 for o in sorted(tr.oracles):
